@@ -20,10 +20,13 @@ import (
 	"fmt"
 	"time"
 
+	"github.com/olric-data/olric/internal/cluster/partitions"
+	"github.com/olric-data/olric/internal/discovery"
 	"github.com/olric-data/olric/internal/protocol"
 	"github.com/olric-data/olric/internal/resp"
 	"github.com/olric-data/olric/internal/util"
 	"github.com/olric-data/olric/pkg/storage"
+	"github.com/redis/go-redis/v9"
 )
 
 func (dm *DMap) loadCurrentAtomicInt(e *env) (int, int64, error) {
@@ -45,7 +48,42 @@ func (dm *DMap) loadCurrentAtomicInt(e *env) (int, int64, error) {
 	return int(nr), entry.TTL(), nil
 }
 
+// findOwner returns the primary owner of the key and reports whether it is this node.
+// The fine-grained locks used by the atomic operations are local to a node. So the
+// atomic operations have to be run by the partition owner.
+func (dm *DMap) findOwner(key string) (discovery.Member, bool) {
+	hkey := partitions.HKey(dm.name, key)
+	member := dm.s.primary.PartitionByHKey(hkey).Owner()
+	return member, member.CompareByName(dm.s.rt.This())
+}
+
+func (dm *DMap) redirectIncrDecr(member discovery.Member, cmd string, e *env, delta int) (int, error) {
+	var rcmd *redis.IntCmd
+	switch cmd {
+	case protocol.DMap.Incr:
+		rcmd = protocol.NewIncr(e.dmap, e.key, delta).Command(dm.s.ctx)
+	case protocol.DMap.Decr:
+		rcmd = protocol.NewDecr(e.dmap, e.key, delta).Command(dm.s.ctx)
+	default:
+		return 0, fmt.Errorf("invalid operation")
+	}
+	rc := dm.s.client.Get(member.String())
+	err := rc.Process(e.ctx, rcmd)
+	if err != nil {
+		return 0, protocol.ConvertError(err)
+	}
+	res, err := rcmd.Result()
+	if err != nil {
+		return 0, protocol.ConvertError(err)
+	}
+	return int(res), nil
+}
+
 func (dm *DMap) atomicIncrDecr(cmd string, e *env, delta int) (int, error) {
+	if member, ok := dm.findOwner(e.key); !ok {
+		return dm.redirectIncrDecr(member, cmd, e, delta)
+	}
+
 	atomicKey := e.dmap + e.key
 	dm.s.locker.Lock(atomicKey)
 	defer func() {
@@ -109,7 +147,31 @@ func (dm *DMap) Decr(ctx context.Context, key string, delta int) (int, error) {
 	return dm.atomicIncrDecr(protocol.DMap.Decr, e, delta)
 }
 
+func (dm *DMap) redirectGetPut(member discovery.Member, e *env) (storage.Entry, error) {
+	cmd := protocol.NewGetPut(e.dmap, e.key, e.value).SetRaw().Command(dm.s.ctx)
+	rc := dm.s.client.Get(member.String())
+	err := rc.Process(e.ctx, cmd)
+	if errors.Is(err, redis.Nil) {
+		// There is no previous value.
+		return nil, nil
+	}
+	if err != nil {
+		return nil, protocol.ConvertError(err)
+	}
+	value, err := cmd.Bytes()
+	if err != nil {
+		return nil, protocol.ConvertError(err)
+	}
+	entry := dm.engine.NewEntry()
+	entry.Decode(value)
+	return entry, nil
+}
+
 func (dm *DMap) getPut(e *env) (storage.Entry, error) {
+	if member, ok := dm.findOwner(e.key); !ok {
+		return dm.redirectGetPut(member, e)
+	}
+
 	atomicKey := e.dmap + e.key
 	dm.s.locker.Lock(atomicKey)
 	defer func() {
@@ -169,6 +231,20 @@ func (dm *DMap) GetPut(ctx context.Context, key string, value interface{}) (stor
 }
 
 func (dm *DMap) atomicIncrByFloat(e *env, delta float64) (float64, error) {
+	if member, ok := dm.findOwner(e.key); !ok {
+		cmd := protocol.NewIncrByFloat(e.dmap, e.key, delta).Command(dm.s.ctx)
+		rc := dm.s.client.Get(member.String())
+		err := rc.Process(e.ctx, cmd)
+		if err != nil {
+			return 0, protocol.ConvertError(err)
+		}
+		res, err := cmd.Result()
+		if err != nil {
+			return 0, protocol.ConvertError(err)
+		}
+		return res, nil
+	}
+
 	atomicKey := e.dmap + e.key
 	dm.s.locker.Lock(atomicKey)
 	defer func() {
